@@ -221,6 +221,33 @@ CHECKS.update({
              'goroutines (environment moves at quiescence) are replayed, the free interleaving is model-checked only; timers fired programmatically.'),
 })
 
+CHECKS.update({
+    'C11': dict(
+        engine='statedb',
+        technique='TLA+ specs Trie.tla and StateDB.tla model-checked with TLC; every edge of the Trie state graph, every path of length <=4 '
+                  '(thorough 5) through it and simulated behaviours of larger configurations replayed on the real trie.Trie / SecureTrie / '
+                  'state.StateDB; the same driver text runs on reference go-ethereum v1.8.27 in a second binary and the class->root tables are compared',
+        level=('model_checking',
+               'Root is a function of content over ALL bounded histories of the explored graph (about 1 M histories per quick run) under 6-20 '
+               'key/value concretisations and equals the reference root; commit/reopen exact over three DB views; revert restores getters and '
+               'root; proofs verify, are sound, and reject tampering.', 'DESIGN.md §4 C11'),
+        note='Bounded: 3 keys exhaustive, 6 keys simulated, 2 accounts x 2 slots; deleteEmptyObjects fixed per run; one inherited API corner '
+             'recorded as known finding (CreateAccount over an existing account is not persisted; reference behaves identically).'),
+    'C10': dict(
+        engine='evmframes',
+        technique='TLA+ spec EVMFrames.tla generates programs plus expected outcomes under REF/ANN/APP semantics (TLC exhaustive over small '
+                  'alphabets, -simulate over the full one); real bytecode executed on the in-tree vm.EVM and, in a second binary, on reference '
+                  'go-ethereum v1.8.27 Constantinople with a three-way comparison of class, return data, logs and full state dump; plus '
+                  'differential replay of generated opcode snippets (every byte value, boundary and random operands) on the same driver pair',
+        level=('model_checking',
+               'PARTIAL by design: frame, state, budget and dispatch semantics - snapshots/revert, static mode, depth limit 1025 bound exactly by '
+               'a trampoline, return data, value transfer, CREATE/CREATE2 address/nonce/collision/deposit, SELFDESTRUCT, precompiles 1-8 and '
+               '0xfe, shared per-transaction budget - conform to the reference except the two documented deviations; per-opcode arithmetic is '
+               'compared only differentially.', 'DESIGN.md §4 C10, §5'),
+        note='Per-opcode arithmetic, memory and gas numbers are only compared differentially, not specified; programs are straight-line per '
+             'contract; three deviations recorded as known findings (deposit, nonce0, frontier-create).'),
+})
+
 NOT_YET = 'not yet built: the specification for this property is planned in DESIGN.md §4 but no check is registered yet'
 NOT_APPLICABLE = {
     'C18': 'codec round-trip/robustness/injectivity are statements about pure functions over byte strings; there is no '
